@@ -20,10 +20,15 @@ DEFAULT_SEED = 20260927
 RUSTFLAGS = "--cfg num_bigint_verif --check-cfg cfg(num_bigint_verif)"
 
 CONFIGS = {
-    "std-debug": dict(std=True, release=False),
-    "std-release": dict(std=True, release=True),
-    "nostd-debug": dict(std=False, release=False),
-    "nostd-release": dict(std=False, release=True),
+    # library built with: std + rand + serde + quickcheck + arbitrary
+    "std-debug": dict(features=["std", "opt", "stdopt"], release=False),
+    "std-release": dict(features=["std", "opt", "stdopt"], release=True),
+    # no_std + rand + serde
+    "nostd-debug": dict(features=["opt"], release=False),
+    "nostd-release": dict(features=["opt"], release=True),
+    # std only, no optional feature / no feature at all
+    "stdbare-debug": dict(features=["std"], release=False),
+    "bare-release": dict(features=[], release=True),
 }
 
 
@@ -64,8 +69,8 @@ def build(cfg):
     tdir = os.path.join(TARGET, cfg)
     cmd = ["cargo", "build", "--offline", "--quiet", "--manifest-path", os.path.join(SIM, "Cargo.toml"),
            "--target-dir", tdir, "--no-default-features"]
-    if c["std"]:
-        cmd += ["--features", "std"]
+    if c["features"]:
+        cmd += ["--features", " ".join(c["features"])]
     if c["release"]:
         cmd += ["--release"]
     t0 = time.time()
@@ -701,11 +706,11 @@ PROPS = {
         level="exploration",
         custom="check_c16",
         jobs=[
-            Job("c16", ["std-debug", "std-release", "nostd-debug", "nostd-release"], 80_000, 2_000_000,
+            Job("c16", ["std-debug", "std-release", "nostd-debug", "nostd-release", "stdbare-debug", "bare-release"], 80_000, 2_000_000,
                 "plans = register-machine histories weighted towards feature-conditional code (to_str_radix / to_radix / parsing over all "
                 "radices and sizes on both sides of the 64-digit threshold, sqrt/cbrt/nth_root, float conversions, formatting with flags) plus a "
                 "cross-section of every other family; the per-run transcript digest (every result digit, text, float bit pattern, None/panic "
-                "flag) must be identical in all four harness builds; distinct = distinct (operation form, scalar type, radix)"),
+                "flag) must be identical in all six harness builds (std / no_std, with and without the optional features, debug / release); distinct = distinct (operation form, scalar type, radix)"),
         ],
         assumptions=[
             "cargo check of the library alone (guard off) decides 'compiles'; only target x86_64-unknown-linux-gnu is installed",
